@@ -342,6 +342,8 @@ def seek_sweep_cases(rng, mode, N):
     """sweep of the seek moment: after every number of whole blocks t produced by one request (started on or inside a block),
     seek a little back — into the block just produced or the one before — or ahead, and read on"""
     out = []
+    if light():
+        N = min(N, 32)
     pool = [x for x in matrix_for(mode) if x[0] <= 16]
     cfgs = rng.sample(pool, min(3, len(pool)))
     for t in range(1, N + 1):
@@ -370,7 +372,7 @@ def run_C10(ctx):
         # sweep of the seek target: every block 0..N (on the boundary or inside), from a fresh object or after a short read
         pool = [x for x in matrix_for(mode) if x[0] <= 16]
         cfgs = rng.sample(pool, min(3, len(pool)))
-        for t in range(0, SWEEP_N):
+        for t in range(0, 32 if light() else SWEEP_N):
             bs, w = cfgs[t % len(cfgs)]
             key = rb(rng, 16)
             iv, cls = stream_iv(rng, mode, bs, key)
